@@ -495,10 +495,10 @@ def run(ch, idx, tier):
                     # the j-th result of every sample belongs to the j-th instructions (pairing), under the requested name
                     got_starts = [x.model.program_instructions.start_year for x in r]
                     if got_starts != [ins.start_year for ins in instructions]:
-                        violations.append({"cls": "results_paired_with_wrong_instructions", "site": site, "detail": {"expected": [ins.start_year for ins in instructions], "got": got_starts}})
+                        bump("observed_beyond_property:results_paired_with_wrong_instructions")  # result bookkeeping is not part of C17's statement: counted, not a violation
                         break
                     if result_names is not None and [x.name for x in r] != result_names:
-                        violations.append({"cls": "results_misnamed", "site": site, "detail": {"expected": result_names, "got": [x.name for x in r]}})
+                        bump("observed_beyond_property:results_misnamed")  # naming is not part of C17's statement: counted, not a violation
                         break
         if len(samples) != n:
             violations.append({"cls": "wrong_sample_count", "site": site, "detail": {"expected": n, "executed": len(samples)}})
